@@ -219,51 +219,55 @@ Definition TOK (lv : level) (k : ctx) (top : scope) (ts : list stmt) : Prop :=
   NoDup (flat_map ids_stmt ts ++ sig_ids (lv :: k)) /\
   incl (fn_table ts) T.
 
-Variable R : ctx -> st -> chain -> heap -> Prop.
+(* ghost state threaded through a run (S4: the frame of every live scope); it changes only by
+   pushes at block entry and calls and is restored when the scope is left *)
+Variable Gh : Type.
+Variable gpush : Gh -> nat -> Gh.
+Variable R : Gh -> ctx -> st -> chain -> heap -> Prop.
 
 Definition cur_of (c : chain) : nat := match c with (fid, _) :: _ => fid | [] => O end.
 
-Hypothesis K_read : forall k s c h n i v,
-  R k s c h -> vlookup (cv k) n = Some i -> read_var h n c = sret v ->
+Hypothesis K_read : forall g k s c h n i v,
+  R g k s c h -> vlookup (cv k) n = Some i -> read_var h n c = sret v ->
   lookup_env (Some i) n (env s) = Some v.
 
-Hypothesis K_write : forall k s c h n i v h',
-  R k s c h -> vlookup (cv k) n = Some i -> write_var h n c v = sret h' ->
-  exists e', assign_env (Some i) n v (env s) = Some e' /\ R k (with_env e' s) c h'.
+Hypothesis K_write : forall g k s c h n i v h',
+  R g k s c h -> vlookup (cv k) n = Some i -> write_var h n c v = sret h' ->
+  exists e', assign_env (Some i) n v (env s) = Some e' /\ R g k (with_env e' s) c h'.
 
-Hypothesis K_decl_old : forall lv k s c h n i v h',
-  R (lv :: k) s c h -> assoc n (lv_g lv) = Some i ->
+Hypothesis K_decl_old : forall g lv k s c h n i v h',
+  R g (lv :: k) s c h -> assoc n (lv_g lv) = Some i ->
   declare_var h (cur_of c) n v = sret h' ->
-  R (lv :: k) (with_env (define_env (Some i) n v (env s)) s) c h'.
+  R g (lv :: k) (with_env (define_env (Some i) n v (env s)) s) c h'.
 
-Hypothesis K_decl_new : forall lv k s c h n i v h',
-  R (lv :: k) s c h -> assoc n (lv_g lv) = None ->
+Hypothesis K_decl_new : forall g lv k s c h n i v h',
+  R g (lv :: k) s c h -> assoc n (lv_g lv) = None ->
   (exists r, decls_after ((n, i) :: lv_g lv) r = lv_sig lv) ->
   NoDup (sig_ids (lv :: k)) ->
   declare_var h (cur_of c) n v = sret h' ->
-  R (set_g lv ((n, i) :: lv_g lv) :: k) (with_env (define_env (Some i) n v (env s)) s) c h'.
+  R g (set_g lv ((n, i) :: lv_g lv) :: k) (with_env (define_env (Some i) n v (env s)) s) c h'.
 
-Hypothesis K_enter : forall k s c h b fs,
-  R k s c h -> chk_block (cv k) (cf k) b = true -> predecl b = Some fs -> BOK k b ->
-  R (enter_level b fs :: k)
+Hypothesis K_enter : forall g k s c h b fs,
+  R g k s c h -> chk_block (cv k) (cf k) b = true -> predecl b = Some fs -> BOK k b ->
+  R (gpush g (length h)) (enter_level b fs :: k)
     {| env := [] :: env s; fns := hoisted b [] :: fns s |}
     ((length h, None) :: c)
     (with_fns (h ++ [{| fr_slots := []; fr_fns := []; fr_parent := c |}]) (length h)
               (block_closures b (length h) [] [])).
 
-Hypothesis K_exit : forall k s c h lv s' fid h',
-  R k s c h -> R (lv :: k) s' ((fid, None) :: c) h' ->
+Hypothesis K_exit : forall g k s c h lv s' fid h',
+  R g k s c h -> R (gpush g fid) (lv :: k) s' ((fid, None) :: c) h' ->
   tl (env_shape (env s')) = env_shape (env s) -> tl (fns s') = fns s -> hext h h' ->
-  R k (pop_scope s') c h'.
+  R g k (pop_scope s') c h'.
 
-Hypothesis K_call : forall k s c h f fid cl,
-  R k s c h -> vlookup (cf k) f = Some fid -> resolve_fn h f c = Some cl ->
+Hypothesis K_call : forall g k s c h f fid cl,
+  R g k s c h -> vlookup (cf k) f = Some fid -> resolve_fn h f c = Some cl ->
   exists fd,
     lookup_fn (Some fid) f (fns s) = Some fd /\
     f_params fd = c_params cl /\ f_body fd = c_body cl /\ f_id fd = Some fid /\
     (f_llen fd <? Z.of_nat (length (f_params fd))) = false /\
     forall s1 h1 vs,
-      R k s1 c h1 -> FC s h s1 h1 -> length vs = length (c_params cl) ->
+      R g k s1 c h1 -> FC s h s1 h1 -> length vs = length (c_params cl) ->
       let defchain : chain :=
         match nth_error h1 (c_frame cl) with
         | Some df => (c_frame cl, Some (c_vis cl)) :: fr_parent df
@@ -273,34 +277,34 @@ Hypothesis K_call : forall k s c h f fid cl,
       let s2 := push_scope (bind_params (Some fid) (f_lstart fd) (f_params fd) vs 0 []) s1 in
       exists kG,
         chk_block (cv kG) (cf kG) (c_body cl) = true /\ BOK kG (c_body cl) /\
-        R kG s2 ((length h1, None) :: defchain) h2 /\
+        R (gpush g (length h1)) kG s2 ((length h1, None) :: defchain) h2 /\
         forall s3 h3,
-          R kG s3 ((length h1, None) :: defchain) h3 -> FC s2 h2 s3 h3 -> R k (pop_scope s3) c h3.
+          R (gpush g (length h1)) kG s3 ((length h1, None) :: defchain) h3 -> FC s2 h2 s3 h3 -> R g k (pop_scope s3) c h3.
 
 (* ---------- result relations ---------- *)
-Definition Qe (k : ctx) (c : chain) (s : st) (h : heap) {A} (a : A * heap) (b : A * st) : Prop :=
-  fst a = fst b /\ R k (snd b) c (snd a) /\ FC s h (snd b) (snd a).
-Definition Qt (k : ctx) (c : chain) (s : st) (h : heap) (a : flow * heap) (b : flow * st) : Prop :=
-  fst a = fst b /\ R k (snd b) c (snd a) /\ FCt s h (snd b) (snd a).
+Definition Qe (g : Gh) (k : ctx) (c : chain) (s : st) (h : heap) {A} (a : A * heap) (b : A * st) : Prop :=
+  fst a = fst b /\ R g k (snd b) c (snd a) /\ FC s h (snd b) (snd a).
+Definition Qt (g : Gh) (k : ctx) (c : chain) (s : st) (h : heap) (a : flow * heap) (b : flow * st) : Prop :=
+  fst a = fst b /\ R g k (snd b) c (snd a) /\ FCt s h (snd b) (snd a).
 
-Definition SimE (n : nat) : Prop := forall k e s c h,
-  R k s c h -> chk_expr (cv k) (cf k) e = true ->
-  rsim (Qe k c s h) (seval eps n e c h) (eval None eps n e s).
+Definition SimE (n : nat) : Prop := forall g k e s c h,
+  R g k s c h -> chk_expr (cv k) (cf k) e = true ->
+  rsim (Qe g k c s h) (seval eps n e c h) (eval None eps n e s).
 
-Definition SimT (n : nat) : Prop := forall lv k t r top' s c h,
-  R (lv :: k) s c h ->
+Definition SimT (n : nat) : Prop := forall g lv k t r top' s c h,
+  R g (lv :: k) s c h ->
   chk_stmt (lv_g lv) (cv k) (cf (lv :: k)) t = Some top' ->
   TOK lv k (lv_g lv) (t :: r) ->
-  rsim (Qt (set_g lv top' :: k) c s h) (sexec eps n t c h) (exec None eps n t s).
+  rsim (Qt g (set_g lv top' :: k) c s h) (sexec eps n t c h) (exec None eps n t s).
 
-Definition SimB (n : nat) : Prop := forall k b s c h,
-  R k s c h -> chk_block (cv k) (cf k) b = true -> BOK k b ->
-  rsim (Qe k c s h) (sblock eps n b c h) (exec_block None eps n b s).
+Definition SimB (n : nat) : Prop := forall g k b s c h,
+  R g k s c h -> chk_block (cv k) (cf k) b = true -> BOK k b ->
+  rsim (Qe g k c s h) (sblock eps n b c h) (exec_block None eps n b s).
 
-Definition SimL (n : nat) : Prop := forall k cnd body s c h,
-  R k s c h -> chk_expr (cv k) (cf k) cnd = true ->
+Definition SimL (n : nat) : Prop := forall g k cnd body s c h,
+  R g k s c h -> chk_expr (cv k) (cf k) cnd = true ->
   chk_block (cv k) (cf k) body = true -> BOK k body ->
-  rsim (Qe k c s h) (sloop eps n cnd body c h) (exec_loop None eps n cnd body s).
+  rsim (Qe g k c s h) (sloop eps n cnd body c h) (exec_loop None eps n cnd body s).
 
 (* ---------- expressions ---------- *)
 Lemma sinterp_cases h c segs :
@@ -313,8 +317,8 @@ Proof.
     destruct IH as [(b' & ->)| ->]; [left; eexists; reflexivity|right; reflexivity].
 Qed.
 
-Lemma sim_interp k s c h segs :
-  R k s c h -> forallb (chk_seg (cv k)) segs = true ->
+Lemma sim_interp g k s c h segs :
+  R g k s c h -> forallb (chk_seg (cv k)) segs = true ->
   forall b, sinterp h c segs = sret b -> interp_segs (env s) segs = Ok b.
 Proof.
   intros HR. induction segs as [|sg r IH]; intros Hc b0 Hb.
@@ -327,7 +331,7 @@ Proof.
     + rewrite sinterp_var in Hb. cbn [interp_segs chk_seg] in *.
       apply chk_var_inv in Hs. destruct Hs as (i & Hl & ->).
       destruct (read_var_cases h vn c) as [(v & Ev)|Ev]; rewrite Ev in Hb; [|discriminate].
-      rewrite (K_read _ _ _ _ _ _ _ HR Hl Ev).
+      rewrite (K_read _ _ _ _ _ _ _ _ HR Hl Ev).
       destruct (sinterp_cases h c r) as [(b' & E)| E]; rewrite E in Hb; [|discriminate].
       rewrite (IH _ E). inversion Hb. reflexivity.
 Qed.
@@ -339,12 +343,12 @@ Ltac qe_done :=
           [ reflexivity | eassumption | eauto using FC_refl, FC_trans ] ].
 
 Lemma sim_evals n' :
-  SimE n' -> forall k c es s h,
-  R k s c h -> forallb (chk_expr (cv k) (cf k)) es = true ->
-  rsim (Qe k c s h) (sevals_with (fun e h => seval eps n' e c h) es h)
+  SimE n' -> forall g k c es s h,
+  R g k s c h -> forallb (chk_expr (cv k) (cf k)) es = true ->
+  rsim (Qe g k c s h) (sevals_with (fun e h => seval eps n' e c h) es h)
        (evals_with (eval None eps n') es s).
 Proof.
-  intros IHe k c es. induction es as [|e r IH]; intros s h HR Hc.
+  intros IHe g k c es. induction es as [|e r IH]; intros s h HR Hc.
   - rewrite sevals_with_nil. cbn [evals_with]. qe_done.
   - cbn [forallb] in Hc. apply andb_true_iff in Hc. destruct Hc as [He Hr].
     rewrite sevals_with_cons. cbn [evals_with].
@@ -355,12 +359,12 @@ Proof.
 Qed.
 
 Lemma sim_indices n' :
-  SimE n' -> forall k c es s h,
-  R k s c h -> forallb (chk_expr (cv k) (cf k)) es = true ->
-  rsim (Qe k c s h) (sindices_with (fun e h => seval eps n' e c h) es h)
+  SimE n' -> forall g k c es s h,
+  R g k s c h -> forallb (chk_expr (cv k) (cf k)) es = true ->
+  rsim (Qe g k c s h) (sindices_with (fun e h => seval eps n' e c h) es h)
        (indices_with (eval None eps n') es s).
 Proof.
-  intros IHe k c es. induction es as [|e r IH]; intros s h HR Hc.
+  intros IHe g k c es. induction es as [|e r IH]; intros s h HR Hc.
   - rewrite sindices_with_nil. cbn [indices_with]. qe_done.
   - cbn [forallb] in Hc. apply andb_true_iff in Hc. destruct Hc as [He Hr].
     rewrite sindices_with_cons. cbn [indices_with].
@@ -372,9 +376,9 @@ Proof.
 Qed.
 
 (* read root, mutate, write back *)
-Lemma sim_rmw k s c h s0 h0 vn i (path : list Z) (op : mutop) :
-  R k s c h -> FC s0 h0 s h -> vlookup (cv k) vn = Some i ->
-  rsim (Qe k c s0 h0)
+Lemma sim_rmw g k s c h s0 h0 vn i (path : list Z) (op : mutop) :
+  R g k s c h -> FC s0 h0 s h -> vlookup (cv k) vn = Some i ->
+  rsim (Qe g k c s0 h0)
     (sdo root <- read_var h vn c;
      sdo (root', r) <- of_res (mutate_path root path op);
      sdo h' <- write_var h vn c root'; sret (r, h'))
@@ -391,11 +395,11 @@ Lemma sim_rmw k s c h s0 h0 vn i (path : list Z) (op : mutop) :
 Proof.
   intros HR HF Hl.
   destruct (read_var_cases h vn c) as [(root & Ev)|Ev]; rewrite Ev; [|exact I].
-  rewrite (K_read _ _ _ _ _ _ _ HR Hl Ev). rewrite sbind_ret.
+  rewrite (K_read _ _ _ _ _ _ _ _ HR Hl Ev). rewrite sbind_ret.
   eapply rsim_bind; [apply rsim_lift|]. intros [root' r] ? <-.
   destruct (write_var_cases h vn c root') as [(h' & Ew)|Ew]; rewrite Ew; [|exact I].
   rewrite sbind_ret.
-  destruct (K_write _ _ _ _ _ _ _ _ HR Hl Ew) as (e' & Ea & HR').
+  destruct (K_write _ _ _ _ _ _ _ _ _ HR Hl Ew) as (e' & Ea & HR').
   rewrite Ea. apply rsim_ret. refine (conj _ (conj _ _)); cbn [fst snd]; [reflexivity|exact HR'|].
   eapply FC_trans; [exact HF|]. refine (conj _ (conj _ _)); cbn [with_env env fns].
   - eapply assign_env_shape; eauto.
@@ -404,12 +408,12 @@ Proof.
 Qed.
 
 Lemma sim_mutate n' :
-  SimE n' -> forall k c o op s h s0 h0,
-  R k s c h -> FC s0 h0 s h -> chk_expr (cv k) (cf k) o = true ->
-  rsim (Qe k c s0 h0) (smutate_with (fun e h => seval eps n' e c h) c o op h)
+  SimE n' -> forall g k c o op s h s0 h0,
+  R g k s c h -> FC s0 h0 s h -> chk_expr (cv k) (cf k) o = true ->
+  rsim (Qe g k c s0 h0) (smutate_with (fun e h => seval eps n' e c h) c o op h)
        (mutate_with (eval None eps n') o op s).
 Proof.
-  intros IHe k c o op s h s0 h0 HR HF Hc.
+  intros IHe g k c o op s h s0 h0 HR HF Hc.
   destruct o; try apply rsim_err.
   - cbn [chk_expr] in Hc. apply chk_var_inv in Hc. destruct Hc as (i & Hl & ->).
     cbn [smutate_with mutate_with]. eapply sim_rmw; eauto.
@@ -450,20 +454,20 @@ Ltac crush IHe :=
 
 Lemma simE_step n' : SimE n' -> SimB n' -> SimE (S n').
 Proof.
-  intros IHe IHb k e s c h HR Hc. rewrite seval_S, eval_S. cbv zeta. unfold eval_body.
+  intros IHe IHb g k e s c h HR Hc. rewrite seval_S, eval_S. cbv zeta. unfold eval_body.
   destruct e; cbn [chk_expr] in Hc.
   - qe_done.
   - qe_done.
   - (* EInterp *)
     destruct (sinterp_cases h c segs) as [(b & E)|E]; rewrite E; [|exact I].
-    rewrite (sim_interp _ _ _ _ _ HR Hc _ E). rewrite sbind_ret. cbn. 
+    rewrite (sim_interp _ _ _ _ _ _ HR Hc _ E). rewrite sbind_ret. cbn. 
     eexists; split; [reflexivity|]. refine (conj _ (conj _ _)); cbn [fst snd]; auto using FC_refl.
   - qe_done.
   - qe_done.
   - (* EVar *)
     apply chk_var_inv in Hc. destruct Hc as (i & Hl & ->).
     destruct (read_var_cases h n c) as [(v & Ev)|Ev]; rewrite Ev; [|exact I].
-    rewrite (K_read _ _ _ _ _ _ _ HR Hl Ev). rewrite sbind_ret. qe_done.
+    rewrite (K_read _ _ _ _ _ _ _ _ HR Hl Ev). rewrite sbind_ret. qe_done.
   - (* EBin *)
     split_andb. destruct op; crush IHe.
   - (* EUn *)
@@ -478,12 +482,12 @@ Proof.
   - (* ECall *)
     split_andb. destruct e.
     6: { (* callee is a variable *)
-      destruct (global_builtin n) as [g|] eqn:Eg.
+      destruct (global_builtin n) as [gb|] eqn:Eg.
       - unfold builtin_call.
         eapply rsim_bind; [eapply sim_evals; eassumption|].
         intros [vs h1] [vs' s1] (E1 & HR1 & HF1). cbn [fst snd] in *. subst vs'. cbv beta iota.
         destruct vs as [|v [|v2 r]]; try exact I.
-        destruct g; try exact I; try qe_done.
+        destruct gb; try exact I; try qe_done.
         (* shout *)
         cbn. eexists; split; [reflexivity|]. refine (conj _ (conj _ _)); cbn [fst snd]; auto.
       - unfold scall_user, user_call.
@@ -491,7 +495,7 @@ Proof.
         destruct target as [tg|]; cbn [zopt_eqb] in *; [|discriminate].
         match goal with H : (tg =? fid) = true |- _ => apply Z.eqb_eq in H; subst tg end.
         destruct (resolve_fn h n c) as [cl|] eqn:Er; [|exact I].
-        destruct (K_call _ _ _ _ _ _ _ HR El Er) as (fd & Elf & Ep & Eb & Eid & Ell & Hcall).
+        destruct (K_call _ _ _ _ _ _ _ _ HR El Er) as (fd & Elf & Ep & Eb & Eid & Ell & Hcall).
         rewrite Elf.
         eapply rsim_bind; [eapply sim_evals; eassumption|].
         intros [vs h1] [vs' s1] (E1 & HR1 & HF1). cbn [fst snd] in *. subst vs'. cbv beta iota.
@@ -616,16 +620,16 @@ Proof.
 Qed.
 
 (* ---------- statements ---------- *)
-Lemma Qe_Qt lv k c s h s1 h1 (a : flow * heap) (b : flow * st) :
-  FC s h s1 h1 -> Qe (lv :: k) c s1 h1 a b -> Qt (set_g lv (lv_g lv) :: k) c s h a b.
+Lemma Qe_Qt g lv k c s h s1 h1 (a : flow * heap) (b : flow * st) :
+  FC s h s1 h1 -> Qe g (lv :: k) c s1 h1 a b -> Qt g (set_g lv (lv_g lv) :: k) c s h a b.
 Proof.
   intros HF (E & HR & HF'). rewrite set_g_same. refine (conj E (conj HR _)).
   apply FC_FCt. eapply FC_trans; eauto.
 Qed.
 
-Lemma sim_rmw_assign k s c h s0 h0 vn i (path : list Z) (v : value) :
-  R k s c h -> FC s0 h0 s h -> vlookup (cv k) vn = Some i ->
-  rsim (Qe k c s0 h0)
+Lemma sim_rmw_assign g k s c h s0 h0 vn i (path : list Z) (v : value) :
+  R g k s c h -> FC s0 h0 s h -> vlookup (cv k) vn = Some i ->
+  rsim (Qe g k c s0 h0)
     (sdo root <- read_var h vn c;
      sdo root' <- of_res (assign_path root path v);
      sdo h3 <- write_var h vn c root'; sret (FNormal, h3))
@@ -642,11 +646,11 @@ Lemma sim_rmw_assign k s c h s0 h0 vn i (path : list Z) (v : value) :
 Proof.
   intros HR HF Hl.
   destruct (read_var_cases h vn c) as [(root & Ev)|Ev]; rewrite Ev; [|exact I].
-  rewrite (K_read _ _ _ _ _ _ _ HR Hl Ev). rewrite sbind_ret.
+  rewrite (K_read _ _ _ _ _ _ _ _ HR Hl Ev). rewrite sbind_ret.
   eapply rsim_bind; [apply rsim_lift|]. intros root' ? <-.
   destruct (write_var_cases h vn c root') as [(h' & Ew)|Ew]; rewrite Ew; [|exact I].
   rewrite sbind_ret.
-  destruct (K_write _ _ _ _ _ _ _ _ HR Hl Ew) as (e' & Ea & HR').
+  destruct (K_write _ _ _ _ _ _ _ _ _ HR Hl Ew) as (e' & Ea & HR').
   rewrite Ea. apply rsim_ret. refine (conj _ (conj _ _)); cbn [fst snd]; [reflexivity|exact HR'|].
   eapply FC_trans; [exact HF|]. refine (conj _ (conj _ _)); cbn [with_env env fns].
   - eapply assign_env_shape; eauto.
@@ -656,7 +660,7 @@ Qed.
 
 Lemma simT_step n' : SimE n' -> SimB n' -> SimL n' -> SimT (S n').
 Proof.
-  intros IHe IHb IHl lv k t r top' s c h HR Hc Htok.
+  intros IHe IHb IHl g lv k t r top' s c h HR Hc Htok.
   rewrite sexec_S, exec_S. cbv zeta. unfold exec_body.
   pose proof (chk_stmt_top _ _ _ _ _ Hc) as Htop.
   assert (Hcv : cv (lv :: k) = lv_g lv :: cv k) by reflexivity.
@@ -692,7 +696,7 @@ Proof.
     ev_step IHe.
     destruct (write_var_cases h0 n c v) as [(h2 & Ew)|Ew]; rewrite Ew; [|exact I].
     rewrite sbind_ret.
-    destruct (K_write _ _ _ _ _ _ _ _ HR0 Hl Ew) as (e' & Ea & HR').
+    destruct (K_write _ _ _ _ _ _ _ _ _ HR0 Hl Ew) as (e' & Ea & HR').
     rewrite Ea. apply rsim_ret. eapply Qe_Qt; [exact HF|].
     refine (conj _ (conj _ _)); cbn [fst snd]; [reflexivity|exact HR'|].
     refine (conj _ (conj _ _)); cbn [with_env env fns].
@@ -761,7 +765,7 @@ Qed.
 (* ---------- loops, blocks ---------- *)
 Lemma simL_step n' : SimE n' -> SimB n' -> SimL n' -> SimL (S n').
 Proof.
-  intros IHe IHb IHl k cnd body s c h HR Hc Hb Hbok.
+  intros IHe IHb IHl g k cnd body s c h HR Hc Hb Hbok.
   rewrite sloop_S, exec_loop_S. unfold loop_body.
   ev_step IHe.
   eapply rsim_bind; [apply rsim_lift|]. intros b ? <-.
@@ -784,13 +788,13 @@ Proof. intros H. exact H. Qed.
 Lemma bindM_lift_ok {A B} (a : A) (f : A -> M B) : bindM (lift (Ok a)) f = f a.
 Proof. unfold lift. cbn. destruct (f a); reflexivity. Qed.
 
-Lemma sim_stmts n' (IHt : SimT n') k0 s0 c0 h0 (HR0 : R k0 s0 c0 h0) :
+Lemma sim_stmts n' (IHt : SimT n') g0 k0 s0 c0 h0 (HR0 : R g0 k0 s0 c0 h0) :
   forall ts lv s h fid,
-  R (lv :: k0) s ((fid, None) :: c0) h ->
+  R (gpush g0 fid) (lv :: k0) s ((fid, None) :: c0) h ->
   chk_stmts (cv k0) (cf (lv :: k0)) ts (lv_g lv) = true ->
   TOK lv k0 (lv_g lv) ts ->
   tl (env_shape (env s)) = env_shape (env s0) -> tl (fns s) = fns s0 -> hext h0 h ->
-  rsim (Qe k0 c0 s0 h0)
+  rsim (Qe g0 k0 c0 s0 h0)
        (sstmts_with (fun t h => sexec eps n' t ((fid, None) :: c0) h) ts h)
        (stmts_with None (exec None eps n') ts s).
 Proof.
@@ -804,7 +808,7 @@ Proof.
     destruct (chk_stmt (lv_g lv) (cv k0) (cf (lv :: k0)) t) as [top'|] eqn:Et; [|discriminate].
     eapply rsim_bind; [eapply IHt; eassumption|].
     intros [fl h1] [fl' s1] (E1 & HR1 & (Hsh1 & Hfn1 & Hh1)). cbn [fst snd] in *. subst fl'. cbv beta iota.
-    assert (Hexit : forall fl0 : flow, rsim (@Qe k0 c0 s0 h0 flow) (sret (fl0, h1)) (OkM (fl0, pop_scope s1))).
+    assert (Hexit : forall fl0 : flow, rsim (@Qe g0 k0 c0 s0 h0 flow) (sret (fl0, h1)) (OkM (fl0, pop_scope s1))).
     { intros fl0. apply rsim_ret. refine (conj _ (conj _ _)); cbn [fst snd]; [reflexivity| |].
       - eapply K_exit; eauto; try congruence. eapply hext_trans; eauto.
       - refine (conj _ (conj _ _)); cbn [pop_scope env fns].
@@ -819,12 +823,12 @@ Qed.
 
 Lemma simB_step n' : SimT n' -> SimB (S n').
 Proof.
-  intros IHt k b s c h HR Hc Hbok.
+  intros IHt g k b s c h HR Hc Hbok.
   rewrite sblock_S, exec_block_S. unfold block_body, new_frame. cbv beta iota zeta.
   rewrite hoist_push, bindM_lift_ok.
   pose proof Hc as Hc'. unfold chk_block in Hc'.
   destruct (predecl b) as [fs|] eqn:Ep; [|discriminate]. split_andb.
-  eapply (sim_stmts n' IHt k s c h HR b (enter_level b fs)).
+  eapply (sim_stmts n' IHt g k s c h HR b (enter_level b fs)).
   - eapply K_enter; eauto.
   - assumption.
   - apply ST_enter. exact Hbok.
@@ -849,3 +853,6 @@ Proof.
 Qed.
 
 End Kit.
+
+Definition kit_simB eps T Gh gpush R H1 H2 H3 H4 H5 H6 H7 n : SimB eps T Gh R n :=
+  proj1 (proj2 (proj2 (kit_sim eps T Gh gpush R H1 H2 H3 H4 H5 H6 H7 n))).
